@@ -534,3 +534,197 @@ Proof.
   assert (A : alive s = false) by (unfold alive; rewrite S0; reflexivity). rewrite A in E.
   rewrite cb_resume_dead in E by exact A. inversion E; subst. repeat split.
 Qed.
+
+(* ================= callback allocation balance ================= *)
+(* frame facts that hold whatever the state of the value is *)
+Lemma co_resumed_frame i s : forall s' e p, co_resumed i s = (s', e, p) ->
+  same_val s s' /\ queue s' = queue s /\ freeds e = [] /\ co_grow (chain s) (chain s').
+Proof.
+  intros s' e p E. destruct (await_resume s) as [v|] eqn:AR.
+  - destruct (co_resumed_live _ _ _ AR _ _ _ E) as (SV & Q & _ & F & _ & C & _).
+    split; [exact SV|]. split; [exact Q|]. split; [exact F|].
+    destruct C as [C|C]; rewrite C; [apply co_grow_refl|apply co_grow_cons].
+  - unfold co_resumed in E. rewrite AR in E. destruct (l_retry (getl s i)) as [|r'].
+    + inversion E; subst. split; [apply same_val_refl|]. repeat split. apply co_grow_refl.
+    + set (s1 := setl s i _) in E. destruct (co_await_e r' i s1) as [s2 e2] eqn:E2. inversion E; subst.
+      destruct (co_await_e_frame _ _ _ _ _ E2) as (SV & Q & _ & F & _ & C1 & C2).
+      split; [exact (same_val_trans _ _ _ (same_val_setl _ _ _) SV)|]. split; [exact Q|]. split; [exact F|].
+      destruct (alive s1); [rewrite (C1 eq_refl); apply co_grow_cons|rewrite (C2 eq_refl); apply co_grow_refl].
+Qed.
+
+Lemma co_await_e_grow r i s s' e : co_await_e r i s = (s', e) ->
+  same_val s s' /\ queue s' = queue s /\ freeds e = [] /\ co_grow (chain s) (chain s').
+Proof.
+  intros E. destruct (co_await_e_frame _ _ _ _ _ E) as (SV & Q & _ & F & _ & C1 & C2).
+  split; [exact SV|]. split; [exact Q|]. split; [exact F|].
+  destruct (alive s); [rewrite (C1 eq_refl); apply co_grow_cons|rewrite (C2 eq_refl); apply co_grow_refl].
+Qed.
+
+Lemma run_item_frame inl it s : forall s' e, run_item inl it s = (s', e) ->
+  same_val s s' /\ freeds e = [] /\ co_grow (chain s) (chain s').
+Proof.
+  intros s' e E. destruct it as [i ready]. unfold run_item in E. destruct ready.
+  - destruct (co_resumed i s) as [[s1 e1] p] eqn:E1.
+    destruct (co_resumed_frame _ _ _ _ _ E1) as (SV & Q & F & G).
+    destruct p; [destruct inl|].
+    + destruct (co_await_e _ i s1) as [s2 e2] eqn:E2. inversion E; subst.
+      destruct (co_await_e_grow _ _ _ _ _ E2) as (SV2 & _ & F2 & G2).
+      split; [exact (same_val_trans _ _ _ SV SV2)|]. split; [rewrite freeds_app, F, F2; reflexivity|].
+      exact (co_grow_trans _ _ _ G G2).
+    + inversion E; subst. split; [exact (same_val_trans _ _ _ SV (same_val_set_queue _ _))|]. split; [exact F|exact G].
+    + inversion E; subst. split; [exact SV|]. split; [exact F|exact G].
+  - destruct (co_await_e_grow _ _ _ _ _ E) as (SV2 & _ & F2 & G2). split; [exact SV2|]. split; [exact F2|exact G2].
+Qed.
+
+Lemma drive_frame inl items : forall s s' e, drive inl items s = (s', e) ->
+  same_val s s' /\ freeds e = [] /\ co_grow (chain s) (chain s').
+Proof.
+  induction items as [|it t IH]; intros s s' e E; cbn [drive] in E.
+  - inversion E; subst. split; [apply same_val_refl|]. split; [reflexivity|apply co_grow_refl].
+  - destruct (run_item inl it s) as [s1 e1] eqn:E1. destruct (drive inl t s1) as [s2 e2] eqn:E2. inversion E; subst.
+    destruct (run_item_frame _ _ _ _ _ E1) as (SV1 & F1 & G1). destruct (IH _ _ _ E2) as (SV2 & F2 & G2).
+    split; [exact (same_val_trans _ _ _ SV1 SV2)|]. split; [rewrite freeds_app, F1, F2; reflexivity|].
+    exact (co_grow_trans _ _ _ G1 G2).
+Qed.
+
+Lemma dispose_frame awaited sp s : forall s' e, dispose awaited sp s = (s', e) ->
+  same_val s s' /\ freeds e = [] /\ co_grow (chain s) (chain s').
+Proof.
+  intros s' e E. unfold dispose in E. destruct (m_coro s); cbn [negb] in E.
+  - destruct awaited; cbn [negb] in E.
+    + destruct sp as [|x t].
+      * inversion E; subst. split; [apply same_val_refl|]. split; [reflexivity|apply co_grow_refl].
+      * destruct (drive_frame _ _ _ _ _ E) as (SV & F & G).
+        split; [exact (same_val_trans _ _ _ (same_val_set_queue _ _) SV)|]. split; [exact F|exact G].
+    + inversion E; subst. split; [apply same_val_set_queue|]. split; [reflexivity|apply co_grow_refl].
+  - exact (drive_frame _ _ _ _ _ E).
+Qed.
+
+Definition ncb (s : st) : Z := zlen (cbs (chain s)).   (* callback objects alive = callbacks in the chain *)
+
+Lemma step_balance s x s' o : step s x = (s', o) -> ncb s' = ncb s + o_new o - o_del o.
+Proof.
+  intros E. unfold ncb. destruct x; cbn [step] in E.
+  - (* spawn *) destruct (get (tab s) i); [inversion E; subst; cbn [o_new o_del rejected chain set_strong]; lia|].
+    destruct (co_await_e retry i _) as [s2 e] eqn:E2. inversion E; subst.
+    destruct (co_await_e_grow _ _ _ _ _ E2) as (_ & _ & _ & G). rewrite (co_grow_cbs _ _ G). cbn [o_new o_del chain setl set_tab]. lia.
+  - (* connect *) destruct (get (tab s) i); [inversion E; subst; cbn [o_new o_del rejected chain set_strong]; lia|].
+    destruct (alive s) eqn:A.
+    + inversion E; subst. cbn [o_new o_del chain subscribe set_chain setl set_tab]. rewrite cbs_cons_t. unfold zlen. cbn [length]. lia.
+    + rewrite cb_resume_dead in E by exact A. inversion E; subst. cbn [o_new o_del chain setl set_tab].
+      change (frees [EFree i]) with 1. lia.
+  - (* emit *)
+    destruct (negb (alive s) || (awaited && negb (m_coro s)) || (m_void s && negb (Nat.eqb kind 0)) || Nat.ltb 2 kind) eqn:R.
+    + inversion E; subst. cbn [o_new o_del rejected chain set_strong]. lia.
+    + assert (E' : step s (OEmit kind awaited v) = (s', o)) by (cbn [step]; rewrite R; exact E).
+      assert (O : o_st o = 0).
+      { destruct (notify _) as [[a b] c]. destruct (dispose awaited c a). inversion E; subst. reflexivity. }
+      destruct (emit_shape _ _ _ _ _ _ E' O) as (A & _ & s2 & e1 & sp & e2 & W & D & ->).
+      destruct (walk_live _ _ _ (emit_ar s kind v [] A) _ _ _ W) as (_ & _ & _ & _ & _ & (d & Cd & _ & Bal) & _).
+      destruct (dispose_frame _ _ _ _ _ D) as (_ & F2 & G).
+      rewrite (co_grow_cbs _ _ G), Cd. cbn [o_new o_del chain set_chain]. rewrite app_nil_r, frees_app, (frees_nil_of_freeds _ F2).
+      rewrite <- Bal. ring.
+  - (* copy *) destruct (alive s); inversion E; subst; cbn [o_new o_del rejected chain set_strong]; lia.
+  - (* drop *) destruct (strong s) as [|[|k]] eqn:S.
+    + inversion E; subst. cbn [o_new o_del rejected chain set_strong]. lia.
+    + assert (E' : step s ODrop = (s', o)) by (cbn [step]; rewrite S; exact E).
+      destruct (drop_last_shape _ _ _ S E') as (s3 & e2 & D & -> & ->).
+      destruct (dispose_frame _ _ _ _ _ D) as (_ & F2 & G).
+      cbn [o_new o_del chain set_val]. rewrite (co_grow_cbs _ _ G). cbn [chain set_chain].
+      rewrite frees_app, (frees_nil_of_freeds _ F2), frees_freeds, freeds_map_free. cbn [cbs filter map]. unfold zlen. cbn [length]. lia.
+    + inversion E; subst. cbn [o_new o_del rejected chain set_strong]. lia.
+  - (* pause *) destruct (m_coro s); cbn [negb] in E; [|inversion E; subst; cbn [o_new o_del rejected chain set_strong]; lia].
+    destruct (drive false (queue s) (set_queue s [])) as [s1 e] eqn:E1. inversion E; subst.
+    destruct (drive_frame _ _ _ _ _ E1) as (_ & F & G). rewrite (co_grow_cbs _ _ G).
+    cbn [o_new o_del chain set_queue]. rewrite (frees_nil_of_freeds _ F). lia.
+  - inversion E; subst. cbn [o_new o_del rejected chain set_strong]. lia.
+Qed.
+
+Fixpoint sum_new (l : list obs) : Z := match l with [] => 0 | o :: t => o_new o + sum_new t end.
+Fixpoint sum_del (l : list obs) : Z := match l with [] => 0 | o :: t => o_del o + sum_del t end.
+
+Lemma balance_run ops : forall s, let r := run_from s ops in
+  ncb (snd r) = ncb s + sum_new (fst r) - sum_del (fst r).
+Proof.
+  induction ops as [|x t IH]; intros s; cbn [run_from]; [cbn; lia|].
+  destruct (step s x) as [s1 o] eqn:E. specialize (IH s1). cbn zeta in IH.
+  destruct (run_from s1 t) as [os s2]. cbn [fst snd sum_new sum_del] in *.
+  rewrite IH, (step_balance _ _ _ _ E). lia.
+Qed.
+
+(* once the state is gone nothing is ever subscribed again *)
+Definition dead_ok (s : st) : Prop := strong s = 0%nat -> chain s = [].
+
+Lemma step_dead_ok s x s' o : step s x = (s', o) -> dead_ok s -> dead_ok s'.
+Proof.
+  intros E OK S'. destruct (Nat.eq_dec (strong s) 0) as [S0|SN].
+  - assert (A : alive s = false) by (unfold alive; rewrite S0; reflexivity).
+    specialize (OK S0). destruct x; cbn [step] in E.
+    + destruct (get (tab s) i); [inversion E; subst; exact OK|].
+      set (s1 := setl s i _) in E. destruct (co_await_e_dead retry i s1 A) as (s2 & E2 & _ & C & _).
+      rewrite E2 in E. inversion E; subst. rewrite C. exact OK.
+    + destruct (get (tab s) i); [inversion E; subst; exact OK|]. rewrite A in E.
+      rewrite cb_resume_dead in E by exact A. inversion E; subst. exact OK.
+    + rewrite A in E. cbn [negb orb] in E. inversion E; subst. exact OK.
+    + rewrite A in E. inversion E; subst. exact OK.
+    + rewrite S0 in E. inversion E; subst. exact OK.
+    + destruct (m_coro s); cbn [negb] in E; [|inversion E; subst; exact OK].
+      destruct (drive_dead false (queue s) (set_queue s []) A) as (s1 & e1 & E1 & _ & _ & C & _).
+      rewrite E1 in E. inversion E; subst. rewrite C. exact OK.
+    + inversion E; subst. exact OK.
+  - (* the state was alive: only the last drop kills it *)
+    destruct x; cbn [step] in E.
+    + destruct (get (tab s) i); [inversion E; subst; contradiction|].
+      destruct (co_await_e retry i _) as [s2 e] eqn:E2. inversion E; subst.
+      destruct (co_await_e_grow _ _ _ _ _ E2) as (SV & _). rewrite (sv_strong _ _ SV) in S'. contradiction.
+    + destruct (get (tab s) i); [inversion E; subst; contradiction|].
+      destruct (alive s) eqn:A; [inversion E; subst; contradiction|].
+      unfold alive in A. apply negb_false_iff, Nat.eqb_eq in A. contradiction.
+    + destruct (negb (alive s) || (awaited && negb (m_coro s)) || (m_void s && negb (Nat.eqb kind 0)) || Nat.ltb 2 kind) eqn:R;
+        [inversion E; subst; contradiction|].
+      destruct (notify _) as [[s2 e1] sp] eqn:N. destruct (dispose awaited sp s2) as [s3 e2] eqn:D. inversion E; subst.
+      unfold notify in N.
+      assert (A : alive s = true) by (unfold alive; apply negb_true_iff, Nat.eqb_neq; exact SN).
+      assert (CH : chain (if Nat.eqb kind 2 then set_val s VExt (owned s) v else set_val s VOwned (Some v) (ext s)) = chain s)
+        by (destruct (Nat.eqb kind 2); reflexivity).
+      rewrite CH in N.
+      destruct (walk_live _ _ _ (emit_ar s kind v [] A) _ _ _ N) as (SV & _).
+      destruct (dispose_frame _ _ _ _ _ D) as (SV2 & _).
+      rewrite (sv_strong _ _ SV2), (sv_strong _ _ SV) in S'. destruct (Nat.eqb kind 2); cbn in S'; contradiction.
+    + destruct (alive s); inversion E; subst; [cbn in S'; discriminate|contradiction].
+    + destruct (strong s) as [|[|k]] eqn:S; [contradiction| |inversion E; subst; cbn in S'; discriminate].
+      assert (E' : step s ODrop = (s', o)) by (cbn [step]; rewrite S; exact E).
+      apply (disconnect _ _ _ S E').
+    + destruct (m_coro s); cbn [negb] in E; [|inversion E; subst; contradiction].
+      destruct (drive false (queue s) (set_queue s [])) as [s1 e] eqn:E1. inversion E; subst.
+      destruct (drive_frame _ _ _ _ _ E1) as (SV & _). rewrite (sv_strong _ _ SV) in S'. contradiction.
+    + inversion E; subst. contradiction.
+Qed.
+
+Lemma run_dead_ok ops : forall s, dead_ok s -> dead_ok (snd (run_from s ops)).
+Proof.
+  induction ops as [|x t IH]; intros s OK; cbn [run_from]; [exact OK|].
+  destruct (step s x) as [s1 o] eqn:E. specialize (IH s1 (step_dead_ok _ _ _ _ E OK)).
+  destruct (run_from s1 t) as [os s2]. exact IH.
+Qed.
+
+Theorem callback_alloc_balance : forall coro vd ops,
+  let r := run_from (st0 coro vd) ops in
+  sum_new (fst r) - sum_del (fst r) = ncb (snd r) /\
+  (strong (snd r) = 0%nat -> sum_new (fst r) = sum_del (fst r) /\ chain (snd r) = []).
+Proof.
+  intros coro vd ops r. pose proof (balance_run ops (st0 coro vd)) as B. cbn zeta in B. fold r in B.
+  change (ncb (st0 coro vd)) with 0 in B. split; [lia|].
+  intros S0. assert (OK : dead_ok (snd r)) by (apply run_dead_ok; intros H; discriminate).
+  specialize (OK S0). unfold ncb in B. rewrite OK in B. cbn in B. split; [lia|exact OK].
+Qed.
+
+(* ================= the refuted case (finding F-C15) ================= *)
+Lemma discard_overrun_witness :
+  let ops := [OSpawn 1 0 false 0; OEmit 0 false 1; OEmit 0 false 2; OEmit 0 true 3; OPause] in
+  let r := run_from (st0 true false) ops in
+  cos (chain (snd (run_from (st0 true false) [OSpawn 1 0 false 0]))) = [1%nat] /\
+  delivs (flat_map o_ev (fst r)) = [(1%nat, 3)] /\
+  sg_oracle true false false [[0;1;0;0;0];[2;0;0;1];[2;0;0;2];[2;0;1;3];[5]]
+            (sg_run true false [[0;1;0;0;0];[2;0;0;1];[2;0;0;2];[2;0;1;3];[5]]) = false.
+Proof. vm_compute. repeat split. Qed.
